@@ -511,6 +511,7 @@ func (g *gen) file() *fileT {
 			meta(fmt.Sprintf("BA_ \"GenSigStartValue\" BO_ %d 3;", spell(id))) // signal attribute on a message: no effect
 		}
 	}
+	valLines := map[string]int{}
 	for _, s := range sigRefs {
 		target := fmt.Sprintf("%d %s", spell(s.id), s.name)
 		if r.Intn(4) == 0 {
@@ -519,7 +520,11 @@ func (g *gen) file() *fileT {
 			}
 		}
 		if r.Intn(4) == 0 {
-			for k := dup(); k > 0; k-- {
+			// at most two VAL_ lines (<= 10 entries) per (CAN id, signal name): with tied values the
+			// insertion-sort model of sort.Slice is only exact up to 12 elements (Base/Sort.v)
+			vk := fmt.Sprintf("%d %s", s.id&0x7fffffff, s.name)
+			for k := dup(); k > 0 && valLines[vk] < 2; k-- {
+				valLines[vk]++
 				meta(g.valLine(target, wild))
 			}
 		}
